@@ -1,6 +1,8 @@
 #!/bin/bash
 # try_seeded.sh <patch.diff> <PROP>...: apply a seeded change to /repo, run the quick checks, undo it.
 patch=$1; shift
+# serialize with background check batches: nothing else may build from /repo while it is patched
+exec 9>/verif/.build/repo.lock; flock 9
 git -C /repo apply "$patch" || { echo "PATCH DOES NOT APPLY"; exit 2; }
 for p in "$@"; do
   python3 /verif/bin/check.py $p --tier ${TIER:-quick} 2>&1 | grep -E "VIOLATION|KNOWN|tier=" | cut -c1-260
